@@ -87,6 +87,12 @@ def ensure(translators=('flags',)):
             pass
         except Exception as exc:      # noqa: BLE001
             st.regen['excerpt'] = {'ok': False, 'note': f'{type(exc).__name__}: {exc}'}
+        try:
+            import meta2lean
+            changed = meta2lean.regenerate()
+            st.regen['metatable'] = {'ok': True, 'changed': changed}
+        except Exception as exc:      # noqa: BLE001
+            st.regen['metatable'] = {'ok': False, 'note': f'{type(exc).__name__}: {exc}'}
         # --- build -----------------------------------------------------------------------
         rc, out = _run(['lake', 'build', 'Sourcer', 'driver'])
         st.build_log = out
@@ -102,7 +108,7 @@ def ensure(translators=('flags',)):
             if not st.failed_modules:
                 st.failed_modules.append('Tie')
             # a failing Gen module takes the Tie module that imports it with it
-            for g, t in (('Gen.Flags', 'Tie.Flags'), ('Gen.Excerpt', 'Tie.Excerpt')):
+            for g, t in (('Gen.Flags', 'Tie.Flags'), ('Gen.Excerpt', 'Tie.Excerpt'), ('Gen.MetaTable', 'Tie.MetaTable')):
                 if g in st.failed_modules and t not in st.failed_modules:
                     st.failed_modules.append(t)
             if any(m in st.failed_modules for m in ('Gen.Excerpt', 'Tie.Excerpt', 'xdriver', 'XDriver')):
@@ -110,6 +116,8 @@ def ensure(translators=('flags',)):
                 _run(['lake', 'build', 'Gen.Flags', 'Tie.Flags'])
             if any(m in st.failed_modules for m in ('Gen.Flags', 'Tie.Flags')):
                 _run(['lake', 'build', 'Gen.Excerpt', 'Tie.Excerpt', 'xdriver'])
+            if 'Tie.MetaTable' not in st.failed_modules:
+                _run(['lake', 'build', 'Gen.MetaTable', 'Tie.MetaTable'])
         # --- forbidden tokens --------------------------------------------------------------
         for f in _sources():
             with open(f) as fh:
